@@ -578,6 +578,43 @@ networks:
     internal: "false"
 `
 
+// user-defined names in unusual but legal shapes: extension-like, dotted, numeric, with separators
+const corpusOddNames = `
+services:
+  x-ray:
+    image: "xr:${TAG:-1}"
+    privileged: "true"
+    scale: "${N:-2}"
+    depends_on: [web.api, "007"]
+    networks: [x-net, net.one]
+    volumes: ["x-vol:/data", "vol.data.v1:/d2"]
+    secrets: [x-sec, db.password]
+    configs: [x-cfg]
+    environment: {x-key: v, A.B: c}
+    labels: {x-label: l, com.example.a: "1"}
+  web.api:
+    image: w
+    depends_on:
+      "007": {condition: service_started}
+    ports: ["8009-8010:9-10"]
+  "007":
+    image: bond
+  a_b-c:
+    image: abc
+    extends: {service: web.api}
+networks:
+  x-net: {internal: "false"}
+  net.one: {driver: bridge}
+volumes:
+  x-vol: {}
+  vol.data.v1: {labels: {x-l: "1"}}
+secrets:
+  x-sec: {file: ./s}
+  db.password: {environment: DBPW}
+configs:
+  x-cfg: {content: "c ${TAG:-1}"}
+`
+
 const corpusInvalidSchema = `
 services:
   bad: {image: x, ports: {a: b}}
@@ -622,6 +659,7 @@ func CorpusScns() map[string]*Scn {
 		"rich2":         {Files: files("compose.yaml", corpusRich2, "misc.labels", "ML=1\n", "raw.env", "RAW=not interpolated #kept\n"), Main: []string{"compose.yaml"}},
 		"rich3":         {Files: files("compose.yaml", corpusRich3, "s", "sec", "c", "cfg"), Main: []string{"compose.yaml"}, Env: map[string]string{"CENV": "CANARY-config-env"}},
 		"typed-strings": {Files: files("compose.yaml", corpusTypedStrings), Main: []string{"compose.yaml"}},
+		"odd-names":     {Files: files("compose.yaml", corpusOddNames, "s", "sec"), Main: []string{"compose.yaml"}, Env: map[string]string{"DBPW": "CANARY-dbpw"}},
 		"profiles":      {Files: files("compose.yaml", corpusProfiles), Main: []string{"compose.yaml"}},
 		"version":       {Files: files("compose.yaml", corpusVersion), Main: []string{"compose.yaml"}},
 		"bad-schema":    {Files: files("compose.yaml", corpusInvalidSchema), Main: []string{"compose.yaml"}},
